@@ -51,6 +51,8 @@ structure AddArgs where
   filter : FilterArg
   /-- the sink passed to `add` has a `stop()` method that raises `OSError` -/
   stopFails : Bool := false
+  /-- `colorize=True` with a string format: the handler keeps one pre-colourised format per level name -/
+  colorize : Bool := false
   deriving Repr
 
 inductive Op where
